@@ -19,8 +19,10 @@ fn pick_op(ops: &[Op]) -> Op {
 /// C03: chain of `depth` catalogue operators over cold / hot sources.
 fn c03_chain(depth: usize, max_len: u32) {
   let mut chain: Vec<(Op, P)> = vec![];
+  // the catalogue's operators plus the pass-through stages (boxed, finalize, relay through a Subject)
+  let ops = all_unary_ops();
   for i in 0..depth {
-    let op = pick_op(C03_OPS);
+    let op = pick_op(&ops);
     let p = draw_params(op, max_len + 1, 10 + i);
     chain.push((op, p));
   }
